@@ -113,6 +113,7 @@ MpForms ==
     \cup {<<Field(A1, "q", d)>> : d \in DataSet}
     \cup {<<File(<<102>>, fn, e, c, <<120>>)>> : fn \in TextSet, e \in {"q", "x"}, c \in BOOLEAN}
     \cup {<<File(<<102>>, fn, "x", FALSE, <<120>>)>> : fn \in TextsX2}
+    \cup {<<File(n, A1, "q", FALSE, <<120>>)>> : n \in TextSet}          \* quoted name followed by another parameter
     \cup {<<File(<<102>>, A1, "q", TRUE, d)>> : d \in DataSet}
     \cup {<<p, q>> : p \in {Field(A1, "q", V1), Field(<<98>>, "x", <<>>), File(<<102>>, A1, "q", FALSE, <<120>>)},
                      q \in {Field(A1, "q", <<119>>), Field(<<99, 233>>, "q", CRLF), File(<<102>>, <<233>>, "x", TRUE, <<>>),
@@ -186,14 +187,16 @@ ArbPut ==
     /\ UNCHANGED sc
 
 (* limits: n parts against max_parts around n; header size h against max_part_header_size around h.
-   Must be accepted when within the limit under every reading of "size" (header block incl. its
-   blank line), must be rejected when beyond it under every reading. *)
+   The property does not pin the exact count: a body must be accepted when it is within the limit
+   under every reading (the count may or may not include the preamble element, the header size may
+   or may not include the blank line) and rejected when it is beyond it under every reading;
+   in between the verdict is free. *)
 HeadLen(f) == LET hs == {Len(PartHead(f[i])) : i \in 1..Len(f)} IN CHOOSE x \in hs : \A y \in hs : x >= y
 Limits ==
     /\ sc.mode = "form" /\ sc.enc = "mp" /\ Len(sc.form) = 2 /\ ~sc.quoted
     /\ LET n == Len(sc.form)
            h == HeadLen(sc.form) IN
-       \E c \in {[mp |-> n - 1, mh |-> NoLimit, v |-> "error"], [mp |-> n, mh |-> NoLimit, v |-> "form"],
+       \E c \in {[mp |-> n - 1, mh |-> NoLimit, v |-> "error"], [mp |-> n, mh |-> NoLimit, v |-> "free"],
                  [mp |-> n + 1, mh |-> NoLimit, v |-> "form"], [mp |-> 0, mh |-> NoLimit, v |-> "error"],
                  [mp |-> NoLimit, mh |-> h - 1, v |-> "error"], [mp |-> NoLimit, mh |-> h, v |-> "free"],
                  [mp |-> NoLimit, mh |-> h + 4, v |-> "form"], [mp |-> NoLimit, mh |-> 1, v |-> "error"]} :
